@@ -88,6 +88,8 @@ def run(ctx, config="all"):
                  "dominating checks leave for that limb (interval abstract interpretation per configuration; "
                  "bit_len / leading_zeros bounds and unsigned cast round trips are understood)")
     prog = ctx.prog(config)
+    from . import total_rule
+    T = total_rule.totality(ctx, config)     # contextual summaries of private helpers (`value.low_u128()`)
     bodies = conversion_bodies(prog)
     cfgs = [c for c in ctx.cfgs() if c[0] > 0]
     n_ops = 0
@@ -112,7 +114,8 @@ def run(ctx, config="all"):
                     if not ops:
                         continue
                     if ai is None:
-                        ai = absint.Analysis(v, canonical_args=True)
+                        ai = absint.Analysis(v, canonical_args=True, ret_interval=T._ret_interval, ret_paths=T._ret_paths,
+                                             ret_discr=T._ret_discr, ret_len=T._ret_len)
                     st = _state_at(ai, bi, si)
                     if st is None:
                         continue   # Ok construction not reachable on the interval-feasible CFG
